@@ -2,7 +2,7 @@
 
 Deciding monitor ``prep.state``: ``qp.state()`` on ``default.qubit`` after the template (applied to |0…0>) must equal the requested
 state embedded on the template's wires in the documented bit order, with every auxiliary / work / dynamically allocated wire back
-in |0>; exact equality (1e-9) unless the docstring says "up to a global phase" (AmplitudeEmbedding) or gives a precision bound
+in |0>; equality within 1e-7 (sqrt(eps)-limited angle synthesis) unless the docstring says "up to a global phase" (AmplitudeEmbedding) or gives a precision bound
 (QROMStatePreparation).  Paths, each decided separately: ``native`` (template in the circuit), ``rule:<name>`` (every applicable
 registered decomposition rule), ``decomposition`` (``op.decomposition()``).
 
@@ -37,7 +37,7 @@ META = {
     "assumptions": ["reference states transcribe the docstrings"],
 }
 
-TOL = 1e-9
+TOL = 1e-7   # angle synthesis (arccos/arctan of amplitudes) limits the prepared state to ~sqrt(eps) = 1.5e-8 for block-zero inputs
 
 
 # ------------------------------------------------------------------------------------------ generators
@@ -125,6 +125,8 @@ def run(ctx):
             pass
 
     warnings.filterwarnings("ignore")
+    from pv.ref.c53_limit import limit_repeats
+    limit_repeats(ctx)
 
     def rule_name(rule):
         for attr in ("name", "__name__"):
